@@ -75,6 +75,7 @@ def scenarios(tier):
             L.append("stale-pre %s %s" % (fl, ep))
             L.append("stale-rebase %s %s" % (fl, ep))
             L.append("leak2 %s %s" % (fl, ep))
+            L.append("delhook %s %s" % (fl, ep))
             for who in ("provided", "required", "name"):
                 L.append("hashhook %s %s %s" % (fl, ep, who))
             if fl == "verifying":
